@@ -6,6 +6,8 @@
     reconfig pol= perms= raw= authz=      (same fields; the cached session is kept)
     conn cauth= cenc= cmethods= cciphers= user= first=<cmd> follow=<c,c|-> keep=<c,c|->
     reconn resumed=<0|1> cauth= cenc= cmethods= cciphers= user= first=<cmd> follow= keep=
+    stage pol= perms= raw= authz=         (the configuration the NEXT connsw switches to)
+    connsw at=<n> + the fields of conn    (the first n commands arrive under the current server, the rest under the staged one)
     raw cmd=<cmd>
 -/
 import CedarModel.Dispatch
@@ -20,6 +22,7 @@ structure St where
   authz : Option (List (String × List String)) := none    -- perm ↦ allowed users ("*" = anyone)
   base : Option Policy := none     -- the server's base SecurityConfig: in force for a command without a policy of its own
   sess : Option Sess := none
+  staged : Option (List (Nat × Policy) × List (Nat × Handler) × Option (List (String × List String)) × Option Policy) := none
   deriving Inhabited
 
 def kv (toks : List String) (k : String) : Option String :=
@@ -48,7 +51,7 @@ def showEvs (evs : List Ev) : String :=
 def srvCfg (p : Policy) : ServerCfg :=
   { auth := p.auth, enc := p.enc, integ := p.integ, methods := ["CLAIMTOBE"], ciphers := ["AES"] }
 
-def doConn (st : St) (toks : List String) (resumed : Bool) : St × String :=
+def doConn (st : St) (toks : List String) (resumed : Bool) (sw : Option Nat := none) : St × String :=
   let g := kv toks
   match g "cauth", g "cenc", g "cmethods", g "cciphers", g "user", g "first", g "follow", g "keep" with
   | some ca, some ce, some cm, some cc, some user, some first, some follow, some keep =>
@@ -68,7 +71,10 @@ def doConn (st : St) (toks : List String) (resumed : Bool) : St × String :=
       match sessR with
       | none => ({ st with sess := none }, "ok hs-failed")
       | some sess =>
-        let evs := srv.serveAuth sess (fun c => keepL.contains c) f (nats follow)
+        let evs := match sw, st.staged with
+          | some n, some (p2, h2, a2, b2) =>
+            serveAuthSw srv (mkServer { pol := p2, handlers := h2, authz := a2, base := b2 }) sess (fun c => keepL.contains c) n f (nats follow)
+          | _, _ => srv.serveAuth sess (fun c => keepL.contains c) f (nats follow)
         -- the post-auth advertisement of a FULL handshake: postAuthPolicy's list; without an authorizer
         -- the security layer advertises just the negotiated command
         let vc : List Nat := if resumed then [] else
@@ -84,7 +90,7 @@ def doConn (st : St) (toks : List String) (resumed : Bool) : St × String :=
 def step (st : St) (toks : List String) : St × String :=
   let g := kv toks
   match toks with
-  | "server" :: _ | "reconfig" :: _ =>
+  | "server" :: _ | "reconfig" :: _ | "stage" :: _ =>
     match g "pol", g "perms", g "raw", g "authz" with
     | some pol, some perms, some raw, some authz =>
       let pols : List (Nat × Policy) := (pol.splitOn ";").filterMap (fun e =>
@@ -111,9 +117,14 @@ def step (st : St) (toks : List String) : St × String :=
           | [a, en, i] => some ⟨lvlOf a, lvlOf en, lvlOf i⟩
           | _ => none
         | none => none
-      ({ pol := pols, handlers := hs, authz := az, base := base, sess := if toks.head? == some "reconfig" then st.sess else none }, "ok")
+      if toks.head? == some "stage" then ({ st with staged := some (pols, hs, az, base) }, "ok")
+      else ({ pol := pols, handlers := hs, authz := az, base := base, sess := if toks.head? == some "reconfig" then st.sess else none }, "ok")
     | _, _, _, _ => (st, "bad-op")
   | "conn" :: _ => doConn st toks false
+  | "connsw" :: _ =>
+    match (g "at").bind (·.toNat?) with
+    | some n => doConn st toks false (some n)
+    | none => (st, "bad-op")
   | "reconn" :: _ => doConn st toks ((g "resumed") == some "1")
   | "raw" :: _ =>
     match (g "cmd").bind (·.toNat?) with
